@@ -16,6 +16,7 @@ from .model import MISSING, Elem, Rule, id_key, jeq, rule_matches
 from .sim import DaemonDied, DaemonExited, Hang, Sim
 
 AUTO = ("auto-id",)
+DEBUG_TRACE = bool(__import__("os").environ.get("CJV_TRACE"))
 
 
 class Pending:
@@ -68,6 +69,8 @@ class Conn:
         self.nreq = 0
         self.inbox = []           # decoded messages not consumed by a monitor (for custom checks)
         self.pings = collections.deque()
+        self.ledger = True        # responses / notifications on this connection are matched against requests
+        self.last_seq = -1
 
     def alive(self):
         return not self.closed and self.ended is None
@@ -171,6 +174,9 @@ class Session:
         """one complete JSON-RPC payload in the connection's framing"""
         if c.closed or c.ended:
             return False
+        if len(payload) > (self.max_msg if c.transport != "ws" else self.max_msg - 14):
+            c.may_close = True      # longer than the configured maximum: the daemon ends the connection
+            self.stats["oversize_messages"] += 1
         c.sent_payloads.append(payload)
         self.send_bytes(c, self.frame_for(c, payload, **kw), chunks)
         return True
@@ -202,6 +208,7 @@ class Session:
         p = Pending(c, idv, method, params, hostile)
         p.sent_at = self.now
         c.nreq += 1
+        p.seq = c.nreq
         if method == "fetch" and isinstance(params, dict):
             fid = params.get("id")
             k = id_key(fid)
@@ -214,6 +221,10 @@ class Session:
                     p.fetch = f
         if p.key is None and method in ("set", "call") and "id" not in msg:
             self.idless.append(p)
+        if p.key is None and method in ("add", "remove", "change", "fetch", "unfetch", "authenticate", "passwd"):
+            # no response will tell whether it took effect: the model cannot follow
+            self.desync = True
+            self.stats["desync"] += 1
         if p.key is not None:
             if p.key in c.pending or p.key in c.done:
                 # the scenario reuses an id: the ledger cannot attribute responses; count only
@@ -281,6 +292,8 @@ class Session:
         t = pr["timeout"]
         if isinstance(t, bool) or not isinstance(t, (int, float)):
             return False
+        if t > 1e10:
+            return None     # not representable in nanoseconds: refusing is as good as accepting
         return t >= 0.001
 
     def predict(self, p):
@@ -301,7 +314,7 @@ class Session:
             if "fetchOnly" in pr and not isinstance(pr["fetchOnly"], bool):
                 return "err", None
             if not self._timeout_ok(pr):
-                return "err", None
+                return ("err" if self._timeout_ok(pr) is False else "any"), None
             acc = pr.get("access")
             if acc is not None and not isinstance(acc, dict):
                 return "any", None
@@ -348,7 +361,7 @@ class Session:
             if not self.can_route(e, c):
                 return "err", None
             if not self._timeout_ok(pr):
-                return "err", None
+                return ("err" if self._timeout_ok(pr) is False else "any"), None
             return "routed", None
         if m == "fetch":
             if "match" in pr:
@@ -431,6 +444,8 @@ class Session:
             return
         if kind == "pong":
             self.stats["ws_pong"] += 1
+            if not c.ledger:
+                return
             if c.pings and c.pings[0] == payload:
                 c.pings.popleft()
             else:
@@ -442,7 +457,8 @@ class Session:
         # a JSON message
         self.stats["msgs_from_daemon"] += 1
         if not isinstance(obj, dict):
-            self.v("rpc/output-not-an-object", payload[:200])
+            if c.ledger:
+                self.v("rpc/output-not-an-object", payload[:200])
             return
         if "method" in obj and "id" not in obj:
             self._on_notification(c, obj)
@@ -454,6 +470,9 @@ class Session:
             self.v("rpc/output-neither-request-nor-response", payload[:200])
 
     def _on_notification(self, c, obj):
+        if not c.ledger:
+            self.stats["unledgered_notifications"] += 1
+            return
         fid = obj["method"]
         k = id_key(fid)
         f = c.fetches.get(k)
@@ -513,6 +532,9 @@ class Session:
     def _on_forward(self, c, obj):
         self.stats["forwards"] += 1
         p = self._find_routed(c, obj)
+        if p is None and (self.tolerate_unknown_forwards or not c.ledger):
+            self.stats["unledgered_forwards"] += 1
+            return
         if p is None:
             self.v("route/unexpected-forward", "on %s: %s" % (c.name, json.dumps(obj)[:200]))
             return
@@ -557,7 +579,13 @@ class Session:
 
     def _on_response(self, c, obj):
         self.stats["responses"] += 1
+        if not c.ledger:
+            self.stats["unledgered_responses"] += 1
+            return
         k = id_key(obj.get("id"))
+        if k is None:
+            self.stats["responses_with_non_scalar_id"] += 1
+            return
         has_r, has_e = "result" in obj, "error" in obj
         if has_r == has_e:
             self.v("rpc/response-without-exactly-one-of-result-error", json.dumps(obj)[:200])
@@ -579,6 +607,9 @@ class Session:
         if p.state == "forwarded":
             self._final_answer(p, obj, success)
             return
+        if p.seq < c.last_seq:
+            self.v("rpc/responses-out-of-order", "on %s: %s" % (c.name, json.dumps(obj)[:200]))
+        c.last_seq = max(c.last_seq, p.seq)
         exp, eff = self.predict(p)
         if p.expect_override:
             exp = p.expect_override
@@ -611,6 +642,10 @@ class Session:
                     self.v("route/refused-without-reason:%s" % p.method, "%s -> %s" % (_j(p.params), json.dumps(obj)[:200]))
                 else:
                     self.stats["route_refusals"] += 1
+        if success and eff is None and exp != "routed" and p.method in ("add", "remove", "change", "fetch", "unfetch", "authenticate", "passwd"):
+            # a state-changing request succeeded whose effect the model cannot derive: stop model-based verdicts
+            self.desync = True
+            self.stats["desync"] += 1
         if success and eff is not None:
             eff()
         if success and p.method == "get" and exp in ("ok", "any"):
@@ -626,6 +661,7 @@ class Session:
         c.done[k] = p
 
     inject_active = False
+    tolerate_unknown_forwards = False
 
     def _refusal_plausible(self, p, code):
         if self.alloc_faults:
@@ -749,7 +785,9 @@ class Session:
             self.log.append(ln)
         for h in t["hygiene"]:
             self.v("res/fd-hygiene:%s-%s-%s" % (h["op"], h["kind"], h["state"]), json.dumps(h)[:400])
-        closing_candidates = set()
+        if DEBUG_TRACE:
+            for ev in t["trace"]:
+                print("TRACE", ev[0], ev[1], (bytes.fromhex(ev[2])[:150] if ev[0] in "gm" else ev[2:]), ev[3:] if ev[0] == "g" else "")
         for ev in t["trace"]:
             k = ev[0]
             if k == "g":
@@ -771,10 +809,15 @@ class Session:
                 before = len(c.dec.errors)
                 for kind, payload, obj, _w in c.dec.feed(frame):
                     self._on_frame(c, kind, payload, obj)
+                if c.dec.partial() and not c.ledger:
+                    c.dec.buf = b""
                 if c.dec.partial():
                     self.v("wire/generated-frame-is-not-a-whole-frame", "on %s: %r" % (c.name, frame[:60]))
                     c.dec.buf = b""
                 for e in c.dec.errors[before:]:
+                    if not c.ledger:
+                        self.stats["decoder_errors_on_hostile_connections"] += 1
+                        continue
                     self.v("wire/decoder:" + e.split(":")[0].split(" %")[0][:50], "on %s: %s" % (c.name, e))
             elif k == "m":
                 c = self.by_fd.get(ev[1])
@@ -810,7 +853,9 @@ class Session:
                 if c is not None:
                     c.closing = True
         for p, txt in self.deferred:
-            if p.owner is not None and p.owner.closed:
+            if p.conn.closed:
+                self.sig("final", "caller-gone")
+            elif p.owner is not None and p.owner.closed:
                 self.sig("final", "owner-gone")
             elif p.reply is not None:
                 self.v("route/owner-reply-replaced-by-error", "%s instead of %s" % (txt, json.dumps(p.reply)[:200]))
